@@ -203,7 +203,13 @@ struct Replacement {
 
 fn expand(exprs: &mut Vec<SExpr>, templates: &[Template], _lsp_hints: &mut LspHints) -> Result<()> {
     let mut replacements: Vec<Replacement> = vec![];
+    // A template can only name templates defined before it, but a call can also be put together from a parameter or a
+    // conditional (`($x a $x)` used as `(t! a t!)`) and then recreate itself on every round.
+    const MAX_EXPANSION_ROUNDS: usize = 128;
+    const MAX_EXPANSIONS_PER_ROUND: usize = 1 << 16;
+    let mut rounds = 0;
     loop {
+        rounds += 1;
         for (expr_index, expr) in exprs.iter_mut().enumerate() {
             match expr {
                 SExpr::Atom(_) => continue,
@@ -287,6 +293,13 @@ fn expand(exprs: &mut Vec<SExpr>, templates: &[Template], _lsp_hints: &mut LspHi
 
                     while evaluate_conditionals(&mut expanded_template)? {}
 
+                    if rounds > MAX_EXPANSION_ROUNDS || replacements.len() >= MAX_EXPANSIONS_PER_ROUND {
+                        bail_span!(
+                            l,
+                            "template-expand of {} does not come to an end; a template must not expand to a use of itself",
+                            &template.name
+                        );
+                    }
                     replacements.push(Replacement {
                         insert_index: expr_index,
                         exprs: expanded_template,
